@@ -1615,7 +1615,7 @@ def run(chk: core.Check):
     rng = chk.rng
 
     corpus = [json.loads(p.read_text()) for p in sorted((core.VERIF / "corpus" / "C20").glob("*.json"))]
-    n = 130 if quick else 1500
+    n = 110 if quick else 1500
     sel = [c["selection"] for c in corpus if "selection" in c] + [selection_case(rng) for _ in range(n)]
     stage_selection(chk, sel)
 
@@ -1665,10 +1665,10 @@ def run(chk: core.Check):
     # histories first: they are the only place where a configuration remembered by an operation object can show
     if quick:
         stage_oracle_histories(chk, 12 * boost, 10, None if deadline is None else deadline - 60)
-        stage_oracle(chk, 28 * boost, 12, 3, deadline)
+        stage_oracle(chk, 24 * boost, 12, 3, deadline)
     else:
-        stage_oracle_histories(chk, 150 * boost, 20, None if deadline is None else deadline - 300)
-        stage_oracle(chk, 300 * boost, 25, 4, deadline)
+        stage_oracle_histories(chk, 110 * boost, 20, None if deadline is None else deadline - 300)
+        stage_oracle(chk, 260 * boost, 25, 4, deadline)
 
 
 def replay(payload) -> int:
